@@ -97,6 +97,8 @@ def main():
                 except subprocess.TimeoutExpired:
                     class T: returncode = 124; stdout = "timeout"
                     return T()
+            mo = re.search(r"-o\s+(\S+)", cmdw)
+            if mo and os.path.dirname(mo.group(1)): os.makedirs(os.path.join(scratch, os.path.dirname(mo.group(1))) if not os.path.isabs(mo.group(1)) else os.path.dirname(mo.group(1)), exist_ok=True)
             rb = sh(cmdw, cwd=scratch)
             if rb.returncode != 0: return rb
             exe = re.search(r"-o\s+(\S+)", cmdw).group(1)
